@@ -486,7 +486,7 @@ def d7_selection(chk, repo):
                 par = v.cfg.parent.get(id(st))
                 outer = path_term(v, par[0]) if par and isinstance(par[0], ast.If) else v.ctx.mk(("const", True))
                 want = v.ev._bool("and", [outer, v.spec("filter_field is None")])
-                chk.ob(f"{MPL}.{m}::validity-filter-iff-none-given#{n}", cond_equiv(v, pt, want), "C20.D7",
+                chk.ob(f"{MPL}.{m}::validity-filter-iff-none-given#{n}", reached_iff(v, st, want), "C20.D7",
                        f"`{v.src(st)}` under {v.show(pt)[:160]}; expected exactly when no filter was given", v.f, st)
         chk.require(n >= 1, f"{MPL}.{m}: the default filter vanished")
     f = FV(repo, MPL + "._filter_values", param_types=PT)
@@ -551,8 +551,8 @@ def d7_selection(chk, repo):
     for k, (call, st) in enumerate(deleg):
         kw = {x.arg: l.term(x.value, at=st) for x in call.keywords if x.arg}
         pt = path_term(l, st)
-        n_here = 2 if cond_implies(l, pt, l.spec("self.field.nvdim == 2"), [l.spec("self.field.nvdim")], lo=1) else 3
-        okp = cond_equiv(l, pt, l.spec(f"self.field.nvdim == {n_here}"), [l.spec("self.field.nvdim")], lo=1)
+        n_here = 2 if reached_implies(l, st, l.spec("self.field.nvdim == 2"), [l.spec("self.field.nvdim")], lo=1) else 3
+        okp = reached_iff(l, st, l.spec(f"self.field.nvdim == {n_here}"), [l.spec("self.field.nvdim")], lo=1)
         chk.ob(f"{MPL}.lightness::delegation#{n_here}::condition", okp, "C20.D7",
                f"the in-plane-angle plot is made under {l.show(pt)[:120]}; expected for {n_here} components", l.f, st)
         fw = all(name in kw and any(is_sym(l.ctx, m_, f"param:{name}") for m_ in phi_members(l.ctx, kw[name])) for name in ("ax", "multiplier", "filter_field"))
@@ -566,7 +566,7 @@ def d7_selection(chk, repo):
                l.f, call)
         for st2 in l.stmts():
             if isinstance(st2, ast.Assign) and isinstance(st2.targets[0], ast.Name) and l.eq(l.term(st2.value, at=st2), want_l) and \
-                    cond_implies(l, path_term(l, st2), l.spec(f"self.field.nvdim == {n_here}"), [l.spec("self.field.nvdim")], lo=1):
+                    reached_implies(l, st2, l.spec(f"self.field.nvdim == {n_here}"), [l.spec("self.field.nvdim")], lo=1):
                 chk.ob(f"{MPL}.lightness::delegation#{n_here}::default-lightness-iff-none", cond_implies(
                     l, path_term(l, st2), l.spec("lightness_field is None")), "C20.D7",
                     f"`{l.src(st2)[:70]}` under {l.show(path_term(l, st2))[:140]}: a given lightness field must not be replaced", l.f, st2)
@@ -575,7 +575,7 @@ def d7_selection(chk, repo):
             t2 = l.term(st2.value, at=st2)
             if l.eq(t2, l.spec("self.field.norm")):
                 chk.ob(f"{MPL}.lightness::norm-as-lightness-iff-none-given@{'delegated' if any(isinstance(p_, ast.If) and 'nvdim' in ast.unparse(p_.test) for p_, f_ in l.cfg.enclosing(st2)) else 'scalar'}",
-                       cond_implies(l, path_term(l, st2), l.spec("lightness_field is None")), "C20.D7",
+                       reached_implies(l, st2, l.spec("lightness_field is None")), "C20.D7",
                        f"`{l.src(st2)}` under {l.show(path_term(l, st2))[:120]}: a given lightness field must not be replaced", l.f, st2)
             if (decode_call(l.ctx, t2) or ("",))[0] == "Field.resample":
                 par = l.cfg.parent.get(id(st2))
@@ -645,7 +645,7 @@ def d7_selection(chk, repo):
                    f"angle = {a.show(t)[:200]}; expected arctan2(y component, x component) (0 only for a label that is not given)", a.f, st)
     for key, text in (("vector-fields-only", "field.nvdim == 1"), ("some-label-given", "x is None and y is None"),
                       ("x-is-a-label", "x is not None and x not in field.vdims"), ("y-is-a-label", "y is not None and y not in field.vdims")):
-        hit = any(cond_equiv(a, path_term(a, rs), a.spec(text)) for rs, nm in a.raises())
+        hit = any(reached_iff(a, rs, a.spec(text)) for rs, nm in a.raises())
         chk.ob(PU + f"inplane_angle::refuses::{key}", hit, "C20.D7", f"no raise reached exactly under `{text}`", a.f)
     wraps = [s2 for s2 in a.stmts() if isinstance(s2, ast.AugAssign) and isinstance(s2.target, ast.Subscript)]
     okw = False
